@@ -2257,6 +2257,14 @@ XPathProcessorImpl::LocationPath()
     {
         RelativeLocationPath();
     }
+    else if(tokenIs(XalanUnicode::charLeftSquareBracket) == true)
+    {
+        // '/' alone is not a step and is not a PrimaryExpr, so
+        // it cannot take a predicate.
+        error(
+            XalanMessages::UnexpectedTokenFound_1Param,
+            m_token);
+    }
 
     // Terminate for safety.
     m_expression->appendOpCode(XPathExpression::eENDOP);
